@@ -201,6 +201,37 @@ def gen_history(rng, kind, thorough=False, related=False):
     return {"kind": kind, "meta": meta, "ops": out, "cs": ["o", ""], "ws": ["F", []], "reuse": reuse, "rel": rel}
 
 
+def gen_sweep_cases(rng, thorough):
+    """deterministic sweeps for C14: (i) one two-acquisition history per file-name length 1..250 (both spellings of the URI; the second
+    acquisition goes to a name one character longer), (ii) packets of every total size around the powers of two up to 64 KiB (quick:
+    32 KiB): a boundary a change introduces at one length or size (a path buffer, a chunked write) is hit exactly, not by luck"""
+    out = []
+    for L in range(1, 251):
+        name = ("n%d_" % L + "abcdefghij" * 25)[:L]
+        ops = []
+        for k, nm in enumerate([name, name + "z"]):
+            ops.append(["set", ("file://" if (L + k) % 2 else "") + nm])
+            ops.append(["start"])
+            for _ in range(2):
+                data, frames = make_packet(rng, 2, 24)
+                ops.append(["append", data.hex(), frames])
+            ops.append(["stop"])
+        out.append({"kind": "raw", "meta": None, "ops": ops, "cs": ["o", ""], "ws": ["F", []], "reuse": False, "rel": ["name-length-sweep"]})
+    p2 = 4096
+    top = (1 << 16) if thorough else (1 << 15)
+    while p2 <= top:
+        for d in (-8, 0, 8):
+            ops = [["set", "big.raw"], ["start"]]
+            b0, f0 = make_frame(rng, 40)
+            big, fb = make_frame(rng, p2 + d)
+            ops.append(["append", (b0 + big).hex(), [f0, fb]])
+            ops.append(["append", b0.hex(), [f0]])
+            ops.append(["stop"])
+            out.append({"kind": "raw", "meta": None, "ops": ops, "cs": ["o", ""], "ws": ["F", []], "reuse": False, "rel": ["packet-size-sweep"]})
+        p2 *= 2
+    return out
+
+
 def flock_safe_ops(ops):
     """The ops of an undisciplined history without those starts that would create a path whose descriptor an interrupted
     acquisition may still hold (open and flock'ed: on the unchanged code a set while Running never closes it): the real,
@@ -1243,6 +1274,12 @@ def run(ctx):
                 k = rng.randrange(0, 8)
                 c["cs"] = ["o", "o" * k + rng.choice("ffllt" + TRUNC_LETTERS)]
             cases.append(c)
+        sw = gen_sweep_cases(rng, thorough)
+        for c in sw[:250:3]:
+            short_write_script(rng, c)
+        cases += sw
+        ctx.extra["c14_sweeps"] = "%d cases: file-name lengths 1..250 (two acquisitions each), packets of 2^k-8, 2^k, 2^k+8 pixel bytes up to %d" % (
+            len(sw), (1 << 16) if thorough else (1 << 15))
         nu = 15000 if thorough else 1500
         for i in range(nu):
             c = gen_undisciplined(rng, thorough)
